@@ -62,6 +62,8 @@ def main(argv=None) -> int:
     a.add_argument("--tier", default=os.environ.get("VERIF_TIER", "quick"), choices=["quick", "thorough"])
     a.add_argument("--root", default=None)
     a.add_argument("--no-write", action="store_true")
+    st = sub.add_parser("selftest")
+    st.add_argument("properties", nargs="*")
     r = sub.add_parser("replay")
     r.add_argument("path")
     args = ap.parse_args(argv)
@@ -69,6 +71,10 @@ def main(argv=None) -> int:
         seed = int(os.environ.get("VERIF_SEED", "0"))
     except ValueError:
         seed = 0
+    if args.cmd == "selftest":
+        from . import variants
+
+        return variants.main_selftest([p.upper() for p in args.properties] or None)
     if args.cmd == "check":
         return run_check(args.property.upper(), args.tier, seed, root=args.root)
     if args.cmd == "all":
